@@ -76,7 +76,9 @@ impl Prop for C11 {
         let mut out = CaseOut::default();
         let mut rng = Rng::derive(ctx.seed, "C11", idx);
         for k in 0..8 {
-            let w = common::well_formed(ctx, &mut rng, 25);
+            // small programs: the widest line is then often the interesting one
+            let size = *rng.pick(&[1usize, 2, 3, 3, 6, 6, 25]);
+            let w = common::well_formed(ctx, &mut rng, size);
             let mut base = Cfg::sample_sane(&mut rng);
             let w2 = if rng.chance(1, 5) { 120 } else { rng.range(12, 200) as u32 };
             base.wrap_column = w2;
